@@ -28,8 +28,9 @@ DFloat == {"float32", "float64"}
 DStr == {"string", "mystring"}
 DSlice == {"slice_int", "slice_string", "slice_iface", "array2_int"}
 DMap == {"map_string_int", "map_string_iface"}
+DMapIdx == {"map_int_slice_int", "map_int_map_string_int"}   \* a list decodes into an int-keyed map: index -> element
 DPlain == {"plain", "ptr_plain"}
-DCont == DSlice \cup DMap \cup DPlain
+DCont == DSlice \cup DMap \cup DMapIdx \cup DPlain
 
 CInit(e) == LET p == HF!Parse(e.toks, 1) IN
             {[ok |-> p.ok, w |-> IF p.ok THEN p.vals[1] ELSE [k |-> "none"], nodes |-> p.nodes,
@@ -37,6 +38,8 @@ CInit(e) == LET p == HF!Parse(e.toks, 1) IN
 
 NodeOf(s, v) == s.nodes[v.id]
 AllItems(s, v, kind) == \A i \in 1..Len(NodeOf(s, v).items) : NodeOf(s, v).items[i].k = kind
+ItemsAre(s, v, P(_)) == \A i \in 1..Len(NodeOf(s, v).items) : P(NodeOf(s, v).items[i])
+IntList(s, v) == v.k = "node" /\ NodeOf(s, v).k = "list" /\ AllItems(s, v, "int")
 KeysStr(s, v) == \A i \in 1..Len(NodeOf(s, v).ents) : NodeOf(s, v).ents[i][1].k = "str"
 ValsInt(s, v) == \A i \in 1..Len(NodeOf(s, v).ents) : NodeOf(s, v).ents[i][2].k = "int"
 WK(s) == IF s.w.k = "node" THEN NodeOf(s, s.w).k ELSE s.w.k
@@ -94,6 +97,13 @@ Expect(s) ==
             ELSE IF d = "slice_int" THEN (IF AllItems(s, s.w, "int") THEN "value" ELSE "unspec")
             ELSE IF d = "slice_string" THEN (IF AllItems(s, s.w, "str") THEN "value" ELSE "unspec")
             ELSE IF d = "array2_int" THEN (IF AllItems(s, s.w, "int") /\ Len(NodeOf(s, s.w).items) = 2 THEN "value" ELSE "unspec")
+            ELSE IF d = "map_int_slice_int"
+                 THEN (IF \A i \in 1..Len(NodeOf(s, s.w).items) : IntList(s, NodeOf(s, s.w).items[i]) THEN "value" ELSE "unspec")
+            ELSE IF d = "map_int_map_string_int"
+                 THEN (IF \A i \in 1..Len(NodeOf(s, s.w).items) :
+                              LET it == NodeOf(s, s.w).items[i] IN
+                              it.k = "node" /\ NodeOf(s, it).k = "map" /\ KeysStr(s, it) /\ ValsInt(s, it)
+                       THEN "value" ELSE "unspec")
             ELSE IF d \in DMap \cup {"bytes", "complex128"} THEN "unspec"   \* a 2-list is how a complex number travels
             ELSE "error"
       [] k = "map" ->
@@ -101,12 +111,12 @@ Expect(s) ==
             ELSE IF d = "map_string_iface" THEN (IF KeysStr(s, s.w) THEN "value" ELSE "unspec")
             ELSE IF d = "map_string_int" THEN (IF KeysStr(s, s.w) /\ ValsInt(s, s.w) THEN "value" ELSE "unspec")
             ELSE IF d \in DPlain THEN (IF KeysStr(s, s.w) /\ NaturalPlain(s) THEN "value" ELSE "unspec")
-            ELSE IF d \in DSlice THEN "unspec"
+            ELSE IF d \in DSlice \cup DMapIdx THEN "unspec"
             ELSE "error"
       [] k = "obj" ->
             IF d \in DPlain THEN (IF NodeOf(s, s.w).name = PlainName /\ NaturalPlain(s) THEN "value" ELSE "unspec")
             ELSE IF d = "map_string_iface" THEN "value"
-            ELSE IF d \in {"iface", "map_string_int"} \cup DSlice THEN "unspec"
+            ELSE IF d \in {"iface", "map_string_int"} \cup DSlice \cup DMapIdx THEN "unspec"
             ELSE "error"
       [] OTHER -> "unspec"
 
@@ -164,6 +174,12 @@ ValueOK(s, out) ==
     ELSE IF d \in DPlain THEN
             /\ r.k = "node"
             /\ HF!SV(<<PlainNode(s)>> \o AsGoNodes(s.nodes), [k |-> "node", id |-> 0], out.nodes, r, {}, {})
+    ELSE IF d \in DMapIdx THEN    \* a list into an int-keyed map: element i under key i - 1
+            LET g == AsGoNodes(s.nodes)
+                ln == g[w.id]
+                mn == [k |-> "map", isnil |-> FALSE,
+                       ents |-> [i \in 1..Len(ln.items) |-> <<[k |-> "int", v |-> ToString(i - 1)], ln.items[i]>>]] IN
+            r.k = "node" /\ HF!SV([g EXCEPT ![w.id] = mn], AsGoV(w), out.nodes, r, {}, {})
     ELSE \* interface{} and the container destinations: the natural Go value of the wire value
          IF k = "dt" THEN r.k = "time"
          ELSE HF!SV(AsGoNodes(s.nodes), AsGoV(w), out.nodes, r, {}, {})
